@@ -1,8 +1,8 @@
 (* Model of MIDI export on the rendered rows: midi_utils.merge_continuation_to_previous_note,
    setup_instruments (tracks grouped by program, drums), init_midi_file / number_to_channel /
    voice_to_channel / set_tracks (channels, programs), prepare_df_for_events (note-on/off, sort
-   by track, time, type with NOTE_OFF before NOTE_ON, per-track deltas) and apply_events
-   (int(delta * ticks_per_beat)).  Time: integer ticks, tpq = ticks per quarter note. *)
+   by track, time, type with NOTE_OFF before NOTE_ON) and apply_events (the absolute position int(offset * ticks_per_beat)
+   of every event, written as the difference to the previous event of its track).  Time: integer ticks, tpq = ticks per quarter note. *)
 From ML Require Import Model.Types gen.Tables Model.Pitch Model.Rel Model.Render.
 Open Scope Z_scope.
 Open Scope list_scope.
@@ -79,11 +79,12 @@ Definition track_events (rows : list row) : list mevent :=
   me_sort (map (fun r => mkME true (r_off r) (r_pitch r + 60) (r_vel r)) sorted ++
            map (fun r => mkME false (r_off r + r_dur r) (r_pitch r + 60) (r_vel r)) sorted).
 
-(* int(delta * ticks_per_beat) per event *)
-Fixpoint with_deltas (tpq prev : Z) (l : list mevent) : list (bool * Z * Z * Z) :=
+(* tick = int(offset * ticks_per_beat) per event (truncated once, times are never negative); delta = tick - last tick of the track *)
+Definition tick_of (tpq t : Z) : Z := (t * TPB) / tpq.
+Fixpoint with_deltas (tpq last : Z) (l : list mevent) : list (bool * Z * Z * Z) :=
   match l with
   | [] => []
-  | e :: r => (me_on e, ((me_time e - prev) * TPB) / tpq, me_key e, me_vel e) :: with_deltas tpq (me_time e) r
+  | e :: r => (me_on e, tick_of tpq (me_time e) - last, me_key e, me_vel e) :: with_deltas tpq (tick_of tpq (me_time e)) r
   end.
 
 Record mtrack := mkMT { mt_channel : Z; mt_program : Z; mt_events : list (bool * Z * Z * Z) }.
